@@ -77,7 +77,8 @@ TRUSTED = ['Lean 4.33 kernel', 'harness/props/c08.py + lean/Driver/C08.lean',
 
 NAMES = ['Water', 'Ethanol', 'Methanol', 'Propanol', 'Butanol', 'Octane', 'Hexane', 'Benzene', 'Toluene']
 # chemicals used only by the `psat-range-edge` class (single component at the ends of its vapour-pressure model)
-EXTRA_NAMES = ['Cyclohexane', 'tert-Butanol', 'EthylAcetate', 'Heptane', 'Pentane', 'Butane', 'Propane', 'SO2', 'Ammonia', 'HCN', 'Chlorine']
+EXTRA_NAMES = ['Cyclohexane', 'tert-Butanol', 'EthylAcetate', 'Heptane', 'Pentane', 'Butane', 'Propane', 'SO2', 'Ammonia', 'HCN', 'Chlorine',
+               'Cyclohexene', 'MethylAcetate', 'EthylFormate', 'DiethylEther', 'Acetaldehyde', 'CarbonDisulfide']
 ALL_NAMES = NAMES + EXTRA_NAMES
 # one chemical present with the specification beyond its critical point (the `else chemical.Tc` / `else chemical.Pc`
 # branches of the shortcut): (chemical, partner at zero level, which specification can exceed the critical value)
@@ -93,6 +94,13 @@ NEIGHBOURS = [(2, 'Propanol,Methanol,Water', 'dewP', 398.517, [0.3284, 0.2734, 0
 # kernel then works on a sub-vector and maps it back through an index) and partners that have groups
 GROUPLESS = ['SO2', 'Ammonia', 'HCN', 'Chlorine']
 GROUPED = ['Ethanol', 'Methanol', 'Propanol', 'Butanol', 'Benzene', 'Toluene', 'Hexane', 'Octane', 'Water']
+SEARCH_ID = {'EthylAcetate': 'Ethyl acetate', 'MethylAcetate': 'Methyl acetate', 'EthylFormate': 'Ethyl formate',
+             'DiethylEther': 'Diethyl ether', 'CarbonDisulfide': 'Carbon disulfide'}
+# chemicals whose vapour-pressure model starts at ≥ 5 kPa: mixtures of them can be specified at temperatures within a few K
+# of the lower end of the UNION of their Psat ranges (the lower limit of vle_domain, which solve_Py clamps T to) while
+# staying inside every chemical's range and inside 5e3–3e6 Pa
+LOWEND = ['Benzene', 'Cyclohexane', 'Cyclohexene', 'EthylAcetate', 'MethylAcetate', 'EthylFormate', 'DiethylEther',
+          'Acetaldehyde', 'CarbonDisulfide']
 VSHARES = 16      # the case space is cut into this many seed-derived shares whatever --jobs is
 # (chemical, miscible partner listed next to it, which end of the Psat model lies inside 5e3–3e6 Pa)
 EDGES = [('Cyclohexane', 'Hexane', 'lower'), ('tert-Butanol', 'Ethanol', 'lower'), ('EthylAcetate', 'Toluene', 'lower'),
@@ -138,7 +146,7 @@ def setup():
     except Exception:
         pass
     for n in ALL_NAMES:
-        CH[n] = (tmo.Chemical(n, search_ID='Ethyl acetate') if n == 'EthylAcetate' else tmo.Chemical(n, cache=True))
+        CH[n] = (tmo.Chemical(n, search_ID=SEARCH_ID[n]) if n in SEARCH_ID else tmo.Chemical(n, cache=True))
     for n in NAMES:
         TSAT5K[n] = CH[n].Tsat(5e3)
 
@@ -689,6 +697,7 @@ def run_impl(case: Case) -> ImplResult:
         pass
     r = Run(ids, pkg)
     if case.meta.get('edge'): r.tags.add('psat-range-edge:' + case.meta['edge'])
+    if case.meta.get('domain-end'): r.tags.add('domain-lower-end')
     if case.meta.get('groupless'): r.tags.add('groupless-chemical:' + case.meta['groupless'])
     if case.meta.get('critical'): r.tags.add('single-critical-guard:' + case.meta['critical'])
     if 'neighbour' in case.meta: r.tags.add('known-witness-neighbourhood')
@@ -888,6 +897,34 @@ def p_range(ids):
     lo = max([5e3] + [psat(i, lo_T) for i in ids])
     hi = min([3e6] + [psat(i, 480.) for i in ids])
     return lo * 1.02, hi * 0.98
+
+
+def gen_domain_end_case(rng):
+    """N ≥ 2 chemicals whose Psat models all start within a few K of each other, T-specified between the highest lower limit
+    and ~14 K above the lowest one: inside every chemical's range, at the lower end of the solvers' temperature domain"""
+    for _ in range(200):
+        n = rng.choice([2, 2, 3])
+        ids = rng.sample(LOWEND, n)
+        tmins = [CH[i].Psat.Tmin for i in ids]
+        lo, hi = max(tmins) + 0.05, min(tmins) + 14.
+        if hi - lo >= 3. and all(psat(i, lo) >= 5e3 for i in ids): break
+    else:
+        return None
+    pkg = rng.choice([0, 1, 1, 2])
+    ops = [f'sys {pkg} {",".join(ids)}']
+    for _ in range(rng.randrange(4, 7)):
+        z = [round(rng.uniform(0.05, 1.0), 3) for _ in ids]
+        if rng.random() < 0.5: s_ = sum(z); z = [v / s_ for v in z]
+        T = round(rng.uniform(lo, min(hi, min(tmins) + 10.)) if rng.random() < 0.65 else rng.uniform(min(tmins) + 10., hi), 3)
+        r = rng.random()
+        if r < 0.3: ops.append(f'pt {rng.choice(["bubP", "dewP"])} {T!r} 1.0 {zs(z)}')
+        elif r < 0.55: ops.append(f'rt {rng.choice(["bub", "dew"])} T {T!r} {zs(z)}')
+        elif r < 0.75: ops.append(f'ord P {T!r} {zs(z)}')
+        elif r < 0.9:
+            p = list(range(n)); rng.shuffle(p)
+            ops.append(f'perm {rng.choice(["bubP", "dewP"])} {T!r} {",".join(map(str, p))} {zs(z)}')
+        else: ops.append(f'scale bubP {T!r} 1000.0 {zs(z)}')
+    return Case(ops, {'domain-end': True})
 
 
 def gen_groupless_case(rng, which, tier):
@@ -1225,6 +1262,10 @@ def gen_share(rng, tier, v):
     for _ in range(2 if q else 12):
         c = gen_fallback_case(rng)
         if c is not None: yield c
+    # T-specified calls at the lower end of the union of the listed chemicals' Psat ranges
+    for _ in range(2 if q else 8):
+        c = gen_domain_end_case(rng)
+        if c is not None: yield c
     # a chemical without UNIFAC groups among chemicals that have them, every listing order
     for i in range(1 if q else len(GROUPLESS)):
         yield gen_groupless_case(rng, (v + i) % len(GROUPLESS), tier)
@@ -1278,6 +1319,9 @@ def corpus():
              {'edge': 'lower'}),
         Case(['sys 1 Octane,Toluene', 'rt bub T 568.24 1.0,0.0', 'pt dewT 2466095.8 1.0 1.0,0.0', 'trace bubT 2430000.0 1e-10 1.0,0.0'],
              {'edge': 'upper'}),
+        # T within 10 K of the lower end of the union of the Psat ranges (vle_domain's Tmin, which solve_Py clamps to)
+        Case(['sys 1 Benzene,Cyclohexane', 'pt bubP 280.0 1.0 0.5,0.5', 'rt bub T 284.0 0.5,0.5', 'rt dew T 281.5 0.3,0.7',
+              'ord P 286.0 0.6,0.4', 'pt bubP 288.0 1.0 0.2,0.8', 'pt bubP 290.0 1.0 0.2,0.8'], {'domain-end': True}),
         # a chemical without Dortmund groups (γ = 1) listed first / in the middle / last among chemicals with groups
         Case(['sys 1 Ethanol,Methanol,SO2', 'perm bubP 300.0 2,0,1 0.35,0.45,0.2', 'perm bubP 300.0 0,2,1 0.35,0.45,0.2',
               'perm dewP 300.0 2,1,0 0.35,0.45,0.2', 'perm bubP 300.0 1,0,2 0.35,0.45,0.2', 'ord P 300.0 0.35,0.45,0.2',
